@@ -280,7 +280,14 @@ fn cmd_worker(args: &[String]) -> i32 {
             // V17.4 + harness determinism: the same seed again, later in the same process
             let out2 = run_scenario(&sc);
             st.rerun_checked += 1;
-            if results_digest(&out2.results) != results_digest(&out.results) {
+            // Abandon faults are placed by counting hook points. A library that legitimately
+            // passes fewer points the second time (a memo of pure results) is then abandoned
+            // elsewhere or not at all, and an editor-session call is fed another text: the two
+            // executions are not the same experiment any more - no verdict, only an observation.
+            let abandoned = |o: &vsim::coresim::exec::RunOutcome| -> Vec<Vec<bool>> { o.results.iter().map(|r| r.iter().map(|x| *x == vsim::coresim::Res::Abandoned).collect()).collect() };
+            if abandoned(&out) != abandoned(&out2) {
+                st.step_count_differs_from_solo += 1;
+            } else if results_digest(&out2.results) != results_digest(&out.results) {
                 found += 1;
                 println!(
                     "{}",
